@@ -277,8 +277,14 @@ def thorough_extra(pid, w, fids):
         for wn in w.contracts[fid].witnesses:
             if wn not in names:
                 names.append(wn)
+    known_witnesses = {k.get("witness") for k in load_json(os.path.join(VERIF, "known_findings.json"), {"findings": []})["findings"]
+                       if k.get("property") == pid and k.get("status", "open") == "open" and k.get("witness")}
     for wn in names:
         holds, detail = run_witness(wn, timeout=1800)
+        if holds is False and wn in known_witnesses:
+            # the single-input witness of a finding listed in known_findings.json: already reported as KNOWN-FINDING by the obligation it belongs to
+            rep["conformance"].append({"witness": wn, "result": "fails (listed known finding)", "detail": str(detail)[:300]})
+            continue
         rep["conformance"].append({"witness": wn, "result": "holds" if holds else ("fails" if holds is False else "not decided"), "detail": str(detail)[:300]})
         if holds is False:
             os.makedirs(os.path.join(REPLAYS, pid), exist_ok=True)
